@@ -167,6 +167,10 @@ def instrumented_copy(tag, verif=None, modules=None):
     verif = verif or common.VERIF
     root = common.mkscratch(tag)
     copy_tree(root)
+    # many #[kani::stub] attributes on one harness exceed the default macro recursion limit
+    lib = os.path.join(root, "fclones", "src", "lib.rs")
+    text = open(lib).read()
+    open(lib, "w").write('#![cfg_attr(kani, recursion_limit = "512")]\n' + text)
     contracts = insert_contracts(root, verif, modules)
     mods = attach_modules(root, verif, modules)
     changed = check_add_only(root)
